@@ -77,6 +77,15 @@ class SymV(object):
         """a value in range(k), every feasible value its own path"""
         if k <= 0:
             raise Abort()
+        pins = self.opts.get('pin')
+        if pins and name in pins:
+            v = pins[name]
+            if v >= k:
+                raise Abort()
+            self._ctx.vars[name] = ('int', ir.const(v))
+            self._ctx.order.append(name)
+            self._proxies[name] = v
+            return v
         if k == 1:
             self._ctx.vars[name] = ('int', ir.const(0))
             self._ctx.order.append(name)
